@@ -3,7 +3,7 @@
 operation sequences, selected through VERIF_BREAK (see checks/c29_fs_isolation.py:_apply_break; /repo is never edited).
 Because the unchanged tree already violates C29, a break counts as caught when it produces witness keys that the unchanged
 tree does not produce.  NOTE: this overwrites evidence/C29.json; re-run the check afterwards.
-Usage: /venv/bin/python seeded/c29_breaks.py [name ...]
+Usage: /venv/bin/python tools/selftest_c29.py [name ...]
 """
 
 from __future__ import annotations
@@ -15,7 +15,7 @@ import subprocess
 import sys
 
 VERIF = pathlib.Path(__file__).resolve().parent.parent
-PATCHES = VERIF / "seeded" / "proposed_patches"
+PATCHES = VERIF / "tools" / "proposed_patches"
 BREAKS = {
     "rename-not-tracked": "os.rename / os.replace are not wrapped",
     "no-permission-check": "destructive operations on non-isolated paths are let through",
